@@ -41,6 +41,35 @@ func genKeys(alpha []byte, minN, maxN, maxLen int) *rapid.Generator[[]string] {
 	})
 }
 
+// keyShape is a drawn key universe. Most cases use a handful of keys (overwrites, deletes of live keys and
+// shared prefixes are the norm); "wide" and "bulk" universes make the B+ trees of a bucket span several
+// leaves (order 8: more than 7 keys) and several levels, so that scans cross leaf boundaries and range
+// bounds fall into the gaps between leaves.
+type keyShape struct {
+	Keys   []string
+	MaxOps int    // upper bound for the number of calls of a write transaction
+	Kind   string // small, wide, bulk
+}
+
+func genKeyShape(t *rapid.T, alpha []byte, minN, maxN, maxLen, maxOps int, allowBulk bool) keyShape {
+	// rapid biases integer draws towards the bounds, hence interior values for the rarer classes
+	switch r := rapid.IntRange(0, 19).Draw(t, "keyshape"); {
+	case r == 9 && allowBulk:
+		return keyShape{Keys: genKeys(alpha, 40, 90, 3).Draw(t, "keys"), MaxOps: 20, Kind: "bulk"}
+	case r == 3 || r == 7 || r == 11 || r == 13 || r == 17:
+		ml := maxLen
+		if ml < 3 {
+			ml = 3
+		}
+		mo := 8
+		if maxOps <= 1 {
+			mo = maxOps // the caller wants one call per transaction
+		}
+		return keyShape{Keys: genKeys(alpha, 8, 30, ml).Draw(t, "keys"), MaxOps: mo, Kind: "wide"}
+	}
+	return keyShape{Keys: genKeys(alpha, minN, maxN, maxLen).Draw(t, "keys"), MaxOps: maxOps, Kind: "small"}
+}
+
 var fixedValues = []string{"", "|", "a|b", "\x80", "v", "vv", "a", "b|c", "\x00", "0", "1|a"}
 
 func genValue() *rapid.Generator[string] {
